@@ -683,7 +683,9 @@ def instr_replay(ctx, c, want):
 # ------------------------------------------------------------------------------------------
 # close() landing at every INSTRUCTION boundary of wait() / forever().next() / one poll_signal of the
 # asynchronous back end (harness/src/bin/p_nested_close.rs; fork per boundary)
-CLOSE_CONFIGS = [('q', '-'), ('q', 's'), ('q', 't'), ('q', 'st'), ('w', 's'), ('w', 't'), ('w', 'ts'), ('f', 's'), ('f', 't'), ('f', 'st')]
+CLOSE_CONFIGS = [('q', '-'), ('q', 's'), ('q', 't'), ('q', 'st'), ('w', 's'), ('w', 't'), ('w', 'ts'), ('f', 's'), ('f', 't'), ('f', 'st'),
+                 # many undrained wake-up bytes (a consumer that reads them in chunks must still see the close byte for what it is)
+                 ('w', 's' * 63), ('f', 's' * 63), ('w', 's' * 64), ('q', 's' * 63), ('w', 'st' * 127)]
 CLOSE_NAMES = {'q': 'poll_signal (non-blocking callback)', 'w': 'wait()', 'f': 'forever().next()'}
 C11_KINDS = ('UNARMED', 'STRANDED', 'STICKY', 'ENDLESS', 'ERR', 'BLOCKED', 'CRASH')
 
@@ -720,7 +722,7 @@ def close_sweep(ctx, want):
     hits, total, incomplete, per = {}, 0, [], {}
     for res in results:
         o, pre = cfg = res['cfg']
-        name = '%s after deliveries "%s"' % (CLOSE_NAMES[o], pre)
+        name = '%s after deliveries "%s"' % (CLOSE_NAMES[o], pre if len(pre) <= 8 else '%s x %d' % (pre[:2] if pre[0] != pre[1] else pre[0], len(pre) // (2 if pre[0] != pre[1] else 1)))
         per['/'.join(cfg)] = res['end']
         if res['end'] is None:
             incomplete.append('%s: %s' % (name, res['tail']))
